@@ -308,3 +308,57 @@ VECTORS = [
     ("walls.upperWalls", _XY + "harmonicWalls {\n  name w\n  colvars x y\n  upperWalls {V}\n  forceConstant 1.0\n}\n", False, "any"),
 ]
 VECTOR_VALUES = ["1", "1 2", "1 2 3", "1 x", "x 1", "nan 2", "", "0.5 0.25", "1 2abc", "1e300 1", "3 1e-300"]
+
+
+# ------------------------------------------------------------------------------------------------
+# Round 4: validation decision per object kind.  One entry = (kind, driver args, render(params) -> configuration,
+# base scalars, base lists, base flags, keywords to vary).  The configuration is rendered from the same parameters
+# that are sent to the extracted model.
+# ------------------------------------------------------------------------------------------------
+def _kv(d, ind="  "):
+    return "".join("%s%s %s\n" % (ind, k, v) for k, v in d.items())
+
+def _render_colvarx(s, l, f):
+    return cv("x", 1, _kv(s) + _kv({k: v for k, v in f.items()}))
+
+def _render_walls(s, l, f):
+    return cv("x", 1) + cv("y", 2) + "harmonicWalls {\n  name w\n  colvars x y\n" + _kv(s) + _kv({k: " ".join(v) for k, v in l.items()}) + _kv(f) + "}\n"
+
+def _render_opesx(s, l, f):
+    return cv("x", 1, GRIDCV) + "opes_metad {\n  name o\n  colvars x\n  gaussianSigma 0.5\n" + _kv(s) + _kv(f) + "}\n"
+
+def _render_metax(s, l, f):
+    return (cv("x", 1, GRIDCV) + cv("y", 2, GRIDCV) + "metadynamics {\n  name m\n  colvars x y\n" + _kv(s) +
+            _kv({k: " ".join(v) for k, v in l.items()}) + _kv(f) + "}\n")
+
+def _render_abfshared(s, l, f):
+    return cv("x", 1, GRIDCV, "    oneSiteTotalForce on\n") + "abf {\n  name a\n  colvars x\n  fullSamples 2\n" + _kv(s) + _kv(f) + "}\n"
+
+def _render_alb(s, l, f):
+    return cv("x", 1) + cv("y", 2) + "alb {\n  name b\n  colvars x y\n" + _kv(s) + _kv({k: " ".join(v) for k, v in l.items()}) + _kv(f) + "}\n"
+
+def _render_kmoving(s, l, f):
+    return cv("x", 1) + "harmonic {\n  name r\n  colvars x\n  centers 1.0\n" + _kv(s) + _kv({k: " ".join(v) for k, v in l.items()}) + _kv(f) + "}\n"
+
+VALIDATE = [
+    ("colvarx", {"temp": "300"}, _render_colvarx,
+     {"width": "0.5", "lowerBoundary": "0", "upperBoundary": "4", "timeStepFactor": "1"}, {}, {}, None),
+    ("colvarx", {"temp": "300"}, _render_colvarx,
+     {"width": "0.5", "lowerBoundary": "0", "upperBoundary": "4", "extendedFluctuation": "0.25", "extendedTimeConstant": "100",
+      "extendedTemp": "300", "extendedLangevinDamping": "1"}, {}, {"extendedLagrangian": "on"}, None),
+    ("colvarx", {"temp": "300"}, _render_colvarx,
+     {"width": "0.5", "lowerBoundary": "0", "upperBoundary": "4"}, {}, {"expandBoundaries": "on", "hardLowerBoundary": "on", "hardUpperBoundary": "on"}, ["f"]),
+    ("walls", {"n": "2"}, _render_walls, {"forceConstant": "2.0"}, {"lowerWalls": ["0", "0"], "upperWalls": ["3", "3"]}, {}, None),
+    ("walls", {"n": "2"}, _render_walls, {"lowerWallConstant": "2.0", "upperWallConstant": "3.0"}, {"lowerWalls": ["0", "0"], "upperWalls": ["3", "3"]}, {}, None),
+    ("walls", {"n": "2"}, _render_walls, {"forceConstant": "2.0"}, {"upperWalls": ["3", "3"]}, {}, None),
+    ("opesx", {"kbt": "0.5961573", "bfinf": "0"}, _render_opesx,
+     {"newHillFrequency": "2", "barrier": "10", "biasfactor": "5", "epsilon": "0.001", "kernelCutoff": "4", "compressionThreshold": "1"}, {}, {}, None),
+    ("metax", {"n": "2"}, _render_metax, {"hillWeight": "0.1", "hillWidth": "2", "newHillFrequency": "2"}, {}, {}, None),
+    ("metax", {"n": "2"}, _render_metax, {"hillWeight": "0.1", "newHillFrequency": "2", "biasTemperature": "1000"}, {"gaussianSigmas": ["0.5", "0.5"]}, {"wellTempered": "on"}, None),
+    ("abfshared", {"rof": "3"}, _render_abfshared, {"outputFreq": "4", "sharedFreq": "2"}, {}, {"shared": "on"}, None),
+    ("alb", {"n": "2"}, _render_alb, {"UpdateFrequency": "8"}, {"centers": ["1", "1"]}, {}, None),
+    ("kmoving", {"rof": "3"}, _render_kmoving, {"forceConstant": "2.0", "targetForceConstant": "4.0", "targetNumSteps": "4", "targetNumStages": "2"}, {}, {}, None),
+    ("kmoving", {"rof": "3"}, _render_kmoving, {"forceConstant": "2.0", "targetForceConstant": "4.0", "targetNumSteps": "4"}, {"lambdaSchedule": ["0", "0.5", "1"]}, {}, None),
+    ("kmoving", {"rof": "3"}, _render_kmoving, {"forceConstant": "2.0", "targetNumSteps": "4", "targetNumStages": "2"}, {}, {"decoupling": "on"}, None),
+]
+VALIDATE_VALUES = ["0", "-1", "1", "2", "3", "0.5", "-0.5", "2147483647", "1e300", "1e-300", "nan", "inf", "-", "4294967296"]
